@@ -29,12 +29,17 @@ def check_errors_is(res, gr, results):
             want = "".join("1" if (p.encode(), t.encode()) in entries else "0" for p, t in pts) or "-"
             if o["VT"] == "nil":
                 want = "-"
-            for which in ("is", "wis"):
+            if o.get("self") not in ("-", "1"):
+                res.violation({"kind": "spec-violation", "struct": m["key"], "case_index": j, "case": st["cases"][j],
+                               "what": "errors.Is(err, e) is false (or panics) for an entry e taken from the report err itself, i.e. a target that carries a Value: got " + str(o.get("self")),
+                               "observed": o["VT"]})
+                return
+            for which in ("is", "wis", "isv"):
                 checked += 1
                 if o[which] != want and not (o["VT"].startswith("E:") and set(o[which]) <= {"0", "-"}):
                     res.violation({"kind": "spec-violation", "struct": m["key"], "case_index": j, "case": st["cases"][j],
                                    "what": "errors.Is over the exported sentinels (%s) disagrees with the report: got %s, the report implies %s"
-                                           % ("wrapped with %w" if which == "wis" else "direct", o[which], want),
+                                           % ({"wis": "wrapped with %w", "isv": "against copies of the sentinels that carry a Value", "is": "direct"}[which], o[which], want),
                                    "sentinels": m["sentinels"], "observed": o["VT"]})
                     return
     res.coverage["errors_is_vectors_checked"] = checked
